@@ -570,6 +570,6 @@ func run(c Case) *pbt.Violation {
 func TestHlsConsistency(t *testing.T) {
 	pbt.Run(t, pbt.Spec[Case]{
 		ID: "C10", Name: "hls-consistency", Gen: genCase, Run: run, Classify: classify, Exclude: excludeKnown,
-		Quick: 450, Thorough: 3500, Isolate: true,
+		Quick: 450, Thorough: 3000, Isolate: true,
 	})
 }
